@@ -13,7 +13,7 @@ def decode(string):
   return obj
 
 def validate_encoded(string):
-  if not re.match(r"^[!-~]+$", string):
+  if not re.match(r"^[!-~]+\Z", string):
     raise gfapy.FormatError(
       "the string {} is not a valid GFA2 sequence\n".format(repr(string))+
       "(it contains spaces and/or non-printable characters)")
